@@ -43,6 +43,7 @@ type c20Fixture struct {
 	next           uint64
 	now            int64
 	a, b           robust.Id
+	link           robust.Id // an authenticated services link with the pseudo-client ChanServ
 	batchA, batchB uint64 // ids of inputs that produced an output batch (JOIN of a, JOIN of b)
 	spare          *ircserver.IRCServer
 }
@@ -53,6 +54,8 @@ PostMessageCooloff = "500ms"
 [[IRC.Operators]]
 Name = "root"
 Password = "operpw"
+[[IRC.Services]]
+Password = "svcpw"
 [TrustedBridges]
 bridgeauth = "bridge1"
 `
@@ -109,6 +112,11 @@ func c20NewFixture(t *testing.T, dir string) *c20Fixture {
 		apply(ircserver.VEntry{Type: robust.IRCFromClient, Session: f.b, Data: l, ClientMessageId: f.next + 100, RemoteAddr: "10.0.0.2"})
 	}
 	f.batchB = f.next
+	apply(ircserver.VEntry{Type: robust.CreateSession, Data: "auth-s-0123456789"})
+	f.link = robust.Id{Id: f.next}
+	for _, l := range []string{"PASS :services=svcpw", "SERVER services.robustirc.net 1 :Services", "NICK ChanServ 1 1422134861 services robustirc.net services.robustirc.net 0 :Channel Services"} {
+		apply(ircserver.VEntry{Type: robust.IRCFromClient, Session: f.link, Data: l, ClientMessageId: f.next + 100, RemoteAddr: "10.0.0.3"})
+	}
 	if _, ok := f.o.Get(robust.Id{Id: f.batchA}); !ok {
 		t.Fatal("HARNESS: fixture batch missing")
 	}
@@ -133,7 +141,16 @@ func c20Ops() []c20Op {
 	}
 	A := func(f *c20Fixture) robust.Id { return f.a }
 	B := func(f *c20Fixture) robust.Id { return f.b }
+	L := func(f *c20Fixture) robust.Id { return f.link }
 	ops := []c20Op{
+		// the services link: its command table touches the same state through its own handlers
+		{"Apply(services SVSJOIN new channel)", "fsm", line(L, ":services.robustirc.net SVSJOIN a #svsnew")},
+		{"Apply(services JOIN new channel)", "fsm", line(L, ":ChanServ JOIN #svcnew")},
+		{"Apply(services SVSPART)", "fsm", line(L, ":services.robustirc.net SVSPART b #c")},
+		{"Apply(services SVSNICK)", "fsm", line(L, "SVSNICK b guest7 :1")},
+		{"Apply(services KILL)", "fsm", line(L, ":ChanServ KILL b :bye")},
+		{"Apply(services NICK new pseudo-client)", "fsm", line(L, "NICK NickServ 1 1422134861 services robustirc.net services.robustirc.net 0 :Nick Services")},
+		{"Apply(services QUIT)", "fsm", line(L, "QUIT :link closing")},
 		{"Apply(PRIVMSG)", "fsm", line(A, "PRIVMSG #c :hi")},
 		{"Apply(NICK)", "fsm", line(B, "NICK bb")},
 		{"Apply(JOIN new channel)", "fsm", line(B, "JOIN #d")},
